@@ -11,6 +11,7 @@ import sys
 import json
 import time
 import importlib
+import copy
 import signal
 import traceback
 
@@ -44,6 +45,8 @@ class Runner:
     def run_case(self, case, reraise):
         """Returns normally if the case passed / was excluded / hit a known finding."""
         rec = self.rec
+        # what gets saved / reported is a copy taken *before* the code under test can touch the case's arrays
+        pristine = copy.deepcopy(case)
         t_case = time.time()
         rec.soft = []
         try:
@@ -54,15 +57,15 @@ class Runner:
                     k = core.match_known(self.known, self.pid, sig)
                     if k is None:
                         raise Violation(sig, msg)
-                    ent = rec.known.setdefault(sig, [0, core.readable(case), msg, k['what']])
+                    ent = rec.known.setdefault(sig, [0, core.readable(pristine), msg, k['what']])
                     ent[0] += 1
             finally:
                 signal.setitimer(signal.ITIMER_REAL, 0)
                 dt = time.time() - t_case
                 if dt > self.slowest[0]:
-                    self.slowest = (dt, core.readable(case, 6))
+                    self.slowest = (dt, core.readable(pristine, 6))
         except CaseTimeout as e:
-            e.args = (str(e) + ' on case ' + json.dumps(core.enc(case))[:6000],)
+            e.args = (str(e) + ' on case ' + json.dumps(core.enc(pristine))[:6000],)
             raise
         except Discard as d:
             rec.evaluations += 1
@@ -72,17 +75,17 @@ class Runner:
             rec.evaluations += 1
             k = core.match_known(self.known, self.pid, v.sig)
             if k is not None:
-                ent = rec.known.setdefault(v.sig, [0, core.readable(case), v.msg, k['what']])
+                ent = rec.known.setdefault(v.sig, [0, core.readable(pristine), v.msg, k['what']])
                 ent[0] += 1
                 return
             if v.sig in self.reported:
                 return
-            rec.last_fail = (v.sig, v.msg, case)
+            rec.last_fail = (v.sig, v.msg, pristine)
             if reraise:
                 raise
             self.save_violation()
             return
-        rec.note_case(case, bool(nt))
+        rec.note_case(pristine, bool(nt))
 
     def save_violation(self):
         sig, msg, case = self.rec.last_fail
